@@ -81,6 +81,10 @@ Definition visible_globals (w : world) : option (list (str * tree)) :=
 Definition mkcfg (mx : Z) (debug haslog : bool) : config :=
   {| c_max := mx; c_debug := debug; c_haslog := haslog; c_sysprefix := None; c_fetch := None; c_urlfn := None |}.
 
+(* with a virtual file system for include statements (a dict-backed fetchFn) *)
+Definition mkcfg_files (mx : Z) (debug haslog : bool) (files : list (str * str)) : config :=
+  {| c_max := mx; c_debug := debug; c_haslog := haslog; c_sysprefix := None; c_fetch := Some (fun u => assoc u files); c_urlfn := None |}.
+
 Definition no_lint (sc : script) : list str := [].
 Definition no_url (b u : str) : str := u.
 
